@@ -145,36 +145,7 @@ def run(ctx):
     # .. and the frame's own duration field is what Frame::duration reports, whatever the deprecated header `speed` holds
     import C01 as _c01
     _c01.frame_duration_store(ctx, 'N1', bindings)
-    # undefined bits of a flags word are ignorable too: hand-written code turns a file word into a flags value only through a masking
-    # conversion (from_bits_truncate; from_bits with the None case refused) - from_bits_retain lets them show in the getter (seed C07-k)
-    nconv = 0
-    for body in [fx.by_path[p_] for p_ in sorted(CG.load_cone(fx)) if fx.by_path[p_].kind != 'promoted']:
-        for c in q.calls(body):
-            last = q.callee_name(c).split('::')[-1]
-            if c.macros or last not in ('from_bits_truncate', 'from_bits_retain', 'from_bits'):
-                continue
-            nconv += 1
-            ok = last == 'from_bits_truncate'
-            if last == 'from_bits':
-                import totality as _T
-                ok = bool(_T.option_required(body, lambda a0, c=c: any(x[0] == 'call' and x[3] == (body.name, c.bb) for x in alts(a0))))
-            ctx.inst('N1', '%s -> %s' % (body.name.split('asefile::')[-1], last), ok, '%s converts a file word with %s; undefined bits must be masked off '
-                     '(from_bits_truncate) or refused (from_bits(..) with None -> Err)' % (body.name.split('asefile::')[-1], last), c.span,
-                     key=ctx.key(body.name, 'N1', 'flags-conv', last))
-        # .. also when handed on as a function value (`reader.dword().map(TilesetFlags::from_bits_truncate)`)
-        for c in q.calls(body):
-            if c.macros:
-                continue
-            for a_ in c.args:
-                fnv = a_.get('fn') if a_.get('k') == 'const' else None
-                nm_ = (fnv.get('res') or fnv.get('orig') or '') if isinstance(fnv, dict) else ''
-                last = nm_.split('::')[-1]
-                if last in ('from_bits_truncate', 'from_bits_retain'):
-                    nconv += 1
-                    ctx.inst('N1', '%s -> %s (fn value)' % (body.name.split('asefile::')[-1], last), last == 'from_bits_truncate',
-                             '%s converts a file word with %s; undefined bits must be masked off' % (body.name.split('asefile::')[-1], last), c.span,
-                             key=ctx.key(body.name, 'N1', 'flags-conv-value', last))
-    ctx.floor('flag-word conversions in the loader', nconv, 2)
+    flag_conversions(ctx, 'N1')
 
     # ---------- N5 pixel ratio
     _c15.pixel_ratio(ctx, rule='N5')
@@ -260,6 +231,41 @@ def run(ctx):
     iorules.exact_reads_only(ctx, rb, 'N2', error_mapping_ok=True)
     iorules.take_bytes_length_check(ctx, 'N2')
     ctx.samples = [i for i in ctx.instances if i['rule'] in ('N1', 'N2', 'N3', 'N4', 'N6', 'N8')][:18]
+
+
+def flag_conversions(ctx, rule, only=None, floor=True):
+    fx = ctx.fx
+    # undefined bits of a flags word are ignorable too: hand-written code turns a file word into a flags value only through a masking
+    # conversion (from_bits_truncate; from_bits with the None case refused) - from_bits_retain lets them show in the getter (seed C07-k)
+    nconv = 0
+    for body in [fx.by_path[p_] for p_ in sorted(CG.load_cone(fx)) if fx.by_path[p_].kind != 'promoted' and (only is None or fx.by_path[p_].name in only)]:
+        for c in q.calls(body):
+            last = q.callee_name(c).split('::')[-1]
+            if c.macros or last not in ('from_bits_truncate', 'from_bits_retain', 'from_bits'):
+                continue
+            nconv += 1
+            ok = last == 'from_bits_truncate'
+            if last == 'from_bits':
+                import totality as _T
+                ok = bool(_T.option_required(body, lambda a0, c=c: any(x[0] == 'call' and x[3] == (body.name, c.bb) for x in alts(a0))))
+            ctx.inst(rule, '%s -> %s' % (body.name.split('asefile::')[-1], last), ok, '%s converts a file word with %s; undefined bits must be masked off '
+                     '(from_bits_truncate) or refused (from_bits(..) with None -> Err)' % (body.name.split('asefile::')[-1], last), c.span,
+                     key=ctx.key(body.name, rule, 'flags-conv', last))
+        # .. also when handed on as a function value (`reader.dword().map(TilesetFlags::from_bits_truncate)`)
+        for c in q.calls(body):
+            if c.macros:
+                continue
+            for a_ in c.args:
+                fnv = a_.get('fn') if a_.get('k') == 'const' else None
+                nm_ = (fnv.get('res') or fnv.get('orig') or '') if isinstance(fnv, dict) else ''
+                last = nm_.split('::')[-1]
+                if last in ('from_bits_truncate', 'from_bits_retain'):
+                    nconv += 1
+                    ctx.inst(rule, '%s -> %s (fn value)' % (body.name.split('asefile::')[-1], last), last == 'from_bits_truncate',
+                             '%s converts a file word with %s; undefined bits must be masked off' % (body.name.split('asefile::')[-1], last), c.span,
+                             key=ctx.key(body.name, rule, 'flags-conv-value', last))
+    if floor:
+        ctx.floor('flag-word conversions in the loader', nconv, 2)
 
 
 def chunk_count_selection(ctx, rule, bindings=None):
